@@ -10,13 +10,14 @@ from .e2e import generate_client
 
 SCHEMA = """
 interface Node { id: ID! }
+interface Named implements Node { id: ID! name: String }
 type City { name: String country: Country }
 type Country { code: String }
 type Address { street: String city: City }
-type User implements Node { id: ID! name: String address: Address friends(first: Int = 10, tag: String = "x"): [User!] }
+type User implements Node & Named { id: ID! name: String address: Address friends(first: Int = 10, tag: String = "x"): [User!] }
 type Bot implements Node { id: ID! model: String }
 union Actor = User | Bot
-type Query { me: User node(id: ID!): Node actor: Actor search(text: String!, opts: String = "d"): [Actor!] }
+type Query { me: User node(id: ID!): Node named: Named actor: Actor search(text: String!, opts: String = "d"): [Actor!] }
 type Subscription { ticks(query: String): Int }
 """
 FRAGS = """
@@ -64,6 +65,12 @@ SCENARIOS["several-operations-not-in-alphabetical-order"] = FRAGS + (
 # @mixin is documented for fields and fragment definitions; elsewhere it must be refused at load time or stripped - never sent
 SCENARIOS["mixin-on-inline-fragment-and-fragment-spread"] = FRAGS + (
     'query M { me { ... on User @mixin(from: "pyvc_mixins", import: "OpFieldMixin") { id } ...PersonBits @mixin(from: "pyvc_mixins", import: "OpFieldMixin") } }')
+# a fragment whose type condition is wider than the position it is spread at (union at a member object field, parent
+# interface at a child-interface field): still part of the document that is sent
+SCENARIOS["fragment-on-union-spread-at-a-member-object-field"] = FRAGS + (
+    'fragment ActorParts on Actor { ... on User { name } ... on Bot { model } }\nquery Q { me { id ...ActorParts } }')
+SCENARIOS["fragment-on-parent-interface-spread-at-a-child-interface-field"] = FRAGS + (
+    'fragment NodeBits on Node { id }\nquery Q { named { name ...NodeBits } me { name ...NodeBits } }')
 REFUSAL_OK = {"mixin-on-inline-fragment-and-fragment-spread"}
 SCENARIOS["mixin-on-fragment-definition"] = FRAGS + 'fragment WithMixin on User @mixin(from: "pyvc_mixins", import: "FragDefMixin") { id }\nquery M { me { ...WithMixin } }'
 
